@@ -19,6 +19,7 @@ import (
 	"sort"
 	"strconv"
 	"strings"
+	"sync"
 	"time"
 
 	"github.com/influxdata/influxdb/v2/models"
@@ -55,6 +56,7 @@ type Env struct {
 	Sh    *tsdb.Shard
 	// every (series, field) ever submitted in this case: the read universe
 	universe map[string]seriesField
+	uniMu    sync.Mutex
 	dead     bool
 	// change-log bookkeeping (crash.go)
 	prevLogSize int64
@@ -448,10 +450,12 @@ func (e *Env) writeNoBegin(toks []string) string {
 		if err != nil {
 			return "bad-point"
 		}
+		e.uniMu.Lock()
 		for _, f := range p.Fields {
 			sf := seriesField{name: p.Meas, tags: mp.Tags().Clone(), tagsS: tagsString(mp.Tags()), field: f.Name}
 			e.universe[sf.name+"|"+sf.tagsS+"|"+sf.field] = sf
 		}
+		e.uniMu.Unlock()
 		pts = append(pts, mp)
 	}
 	if e.Sh == nil {
@@ -786,19 +790,17 @@ func (e *Env) Crash(edit func(shardDir string) error) error {
 		return err
 	}
 	// retire the old instance
-	old := *e
-	old.universe = nil
-	if !old.dead {
-		old.CloseShard()
-		if old.sfile != nil && !old.dead {
-			WithTimeout(func() error { return old.sfile.Close() })
+	oldDir := e.Dir
+	if !e.dead {
+		e.CloseShard()
+		if e.sfile != nil && !e.dead {
+			WithTimeout(func() error { return e.sfile.Close() })
 		}
 	}
-	os.RemoveAll(old.Dir)
+	os.RemoveAll(oldDir)
 	e.Dir, e.Sh, e.sfile = ndir, nil, nil
 	e.appended = false
-	if old.dead {
-		e.dead = true
+	if e.dead {
 		return ErrTimeout
 	}
 	if edit != nil {
